@@ -15,7 +15,8 @@ RULE = ("cases are (document, clean, collapse, literals): well-formed documents 
         "incl. re-declaration in subtrees, xml:lang/xml:space and other qualified attributes, predefined entities, numeric character "
         "references, CDATA sections, comments (never directly followed by character data), randomised lexical choices (quotes, "
         "attribute order, empty-element form, XML declaration); all four clean/collapse combinations and random literals tuples. "
-        "distinct = distinct (document text, parameters); non-trivial = documents with at least two elements or any text")
+        "distinct = distinct (document text, parameters); non-trivial = documents with at least two elements or any text"
+        ". Also: a document normalised before import, the same text imported again after the first import's dictionaries were written into, qualified attributes of real documents with padded values, text that spells character references, two-digit child positions")
 ASSUMPTIONS = [
     "whitespace policy (clean): None stays None; literal element text untouched; text made only of space/tab/NBSP kept (full match); "
     "otherwise surrounding space/tab/newline removed, empty => None, with collapse inner runs of space/tab/newline => one space; "
